@@ -88,6 +88,7 @@ type harnessSummary struct {
 	Obligations  int                `json:"obligations"`
 	Discharged   int                `json:"discharged"`
 	Trivial      int                `json:"asserts_true_by_constant_folding"`
+	AbsImplied   int                `json:"asserts_implied_by_interval_or_order_facts"`
 	Reach        map[string]int     `json:"reach_tags"`
 	AssertLabels map[string]int     `json:"assert_labels"`
 	UnwindMax    int                `json:"unwind_max_seen"`
@@ -271,6 +272,7 @@ func CheckMain(args []string) int {
 			hs.Obligations += r.Obligations
 			hs.Discharged += r.Discharged
 			hs.Trivial += r.Trivial
+			hs.AbsImplied += r.AbsImplied
 			hs.WallS += r.WallS
 			if r.UnwindMax > hs.UnwindMax {
 				hs.UnwindMax = r.UnwindMax
